@@ -129,3 +129,45 @@ Inductive tlv_parse (hdr : Z -> Z -> Descriptor) (body : Z -> Z -> Z -> IM Descr
 (* the 12-bit loop length in front of a loop that starts at pos *)
 Definition loop_length_at (bs : list Z) (pos : Z) : Z :=
   (byte_of bs pos mod 16) * 256 + byte_of bs (pos + 1) mod 256.
+
+(* ---------------- reference byte layouts of descriptor bodies (the byte-aligned ones) ---------------- *)
+(* big-endian words *)
+Definition be16_bytes (x : Z) : list Z := [(x / 256) mod 256; x mod 256].
+Definition be32_bytes (x : Z) : list Z := [(x / 16777216) mod 256; (x / 65536) mod 256; (x / 256) mod 256; x mod 256].
+
+(* EN 300 468 6.2.39 *)
+Definition ref_stream_identifier (v : DescriptorStreamIdentifier) : list Z := [DescriptorStreamIdentifier_ComponentTag v].
+(* ISO/IEC 13818-1 2.6.10 *)
+Definition ref_data_stream_alignment (v : DescriptorDataStreamAlignment) : list Z := [DescriptorDataStreamAlignment_Type v].
+(* 2.6.8: format_identifier(32) additional_identification_info *)
+Definition ref_registration (v : DescriptorRegistration) : list Z :=
+  be32_bytes (DescriptorRegistration_FormatIdentifier v) ++ DescriptorRegistration_AdditionalIdentificationInfo v.
+(* 2.6.28 / EN 300 468 6.2.31 *)
+Definition ref_private_data_indicator (v : DescriptorPrivateDataIndicator) : list Z := be32_bytes (DescriptorPrivateDataIndicator_Indicator v).
+Definition ref_private_data_specifier (v : DescriptorPrivateDataSpecifier) : list Z := be32_bytes (DescriptorPrivateDataSpecifier_Specifier v).
+(* 2.6.18 (one entry): ISO_639_language_code(24) audio_type(8) *)
+Definition ref_iso639 (v : DescriptorISO639LanguageAndAudioType) : list Z :=
+  DescriptorISO639LanguageAndAudioType_Language v ++ [DescriptorISO639LanguageAndAudioType_Type v].
+(* 6.2.27 *)
+Definition ref_network_name (v : DescriptorNetworkName) : list Z := DescriptorNetworkName_Name v.
+(* 6.2.33: service_type, provider name with its length, service name with its length *)
+Definition ref_service (v : DescriptorService) : list Z :=
+  [DescriptorService_Type v; zlen (DescriptorService_Provider v)] ++ DescriptorService_Provider v ++
+  [zlen (DescriptorService_Name v)] ++ DescriptorService_Name v.
+(* 6.2.37: language, event name with its length, text with its length *)
+Definition ref_short_event (v : DescriptorShortEvent) : list Z :=
+  DescriptorShortEvent_Language v ++ [zlen (DescriptorShortEvent_EventName v)] ++ DescriptorShortEvent_EventName v ++
+  [zlen (DescriptorShortEvent_Text v)] ++ DescriptorShortEvent_Text v.
+(* 6.2.28: country_code(24) rating(8) per entry *)
+Definition ref_parental_rating (v : DescriptorParentalRating) : list Z :=
+  flat_map (fun it => DescriptorParentalRatingItem_CountryCode it ++ [DescriptorParentalRatingItem_Rating it]) (DescriptorParentalRating_Items v).
+(* 6.2.41: language(24) subtitling_type(8) composition_page_id(16) ancillary_page_id(16) per entry *)
+Definition ref_subtitling (v : DescriptorSubtitling) : list Z :=
+  flat_map (fun it => DescriptorSubtitlingItem_Language it ++ [DescriptorSubtitlingItem_Type it] ++
+                      be16_bytes (DescriptorSubtitlingItem_CompositionPageID it) ++ be16_bytes (DescriptorSubtitlingItem_AncillaryPageID it))
+           (DescriptorSubtitling_Items v).
+(* 6.2.9: content_nibble_level_1(4) content_nibble_level_2(4) user_byte(8) per entry *)
+Definition ref_content (v : DescriptorContent) : list Z :=
+  flat_map (fun it => [DescriptorContentItem_ContentNibbleLevel1 it * 16 + DescriptorContentItem_ContentNibbleLevel2 it;
+                       DescriptorContentItem_UserByte it]) (DescriptorContent_Items v).
+Definition ref_unknown (v : DescriptorUnknown) : list Z := DescriptorUnknown_Content v.
